@@ -137,7 +137,7 @@ def generic(S):
     return sourmash.load_file_as_index(S.path)
 
 
-def build_standalone(S):
+def build_standalone(S, fmt="csv"):
     """the `sig collect` recipe: the collection's manifest with internal_location := the collection"""
     idx = generic(S)
     mf = sourmash_args.get_manifest(idx)
@@ -146,10 +146,10 @@ def build_standalone(S):
         row = dict(row)
         row["internal_location"] = S.path
         rows.append(row)
-    out = os.path.join(S.dir, "standalone.mf.csv")
+    out = os.path.join(S.dir, "standalone.mf.csv" if fmt == "csv" else "standalone.mf.sqlmf")
     if os.path.exists(out):
         os.unlink(out)
-    CollectionManifest(rows).write_to_filename(out)
+    CollectionManifest(rows).write_to_filename(out, database_format=fmt)
     return out
 
 
@@ -167,6 +167,12 @@ def load_how(S, how):
         idx = sourmash.load_file_as_index(out)
         if not isinstance(idx, StandaloneManifestIndex):
             return None, "MISMATCH standalone manifest loaded as " + type(idx).__name__
+        return list(idx.signatures()), None
+    if how == "standalone-sql":
+        out = build_standalone(S, "sql")
+        idx = sourmash.load_file_as_index(out)
+        if not isinstance(idx, StandaloneManifestIndex):
+            return None, "MISMATCH sql standalone manifest loaded as " + type(idx).__name__
         return list(idx.signatures()), None
     if how == "pathlist":
         out = os.path.join(S.dir, "pathlist.txt")
@@ -295,6 +301,9 @@ def main():
                     mh.add_many([h for h, _ in hs])
                 S.sigs[i] = SourmashSignature(mh, name=nm(name), filename=fnm(filename))
                 res = f"ok md5={int(S.sigs[i].md5sum(), 16)} n={len(mh)}"
+            elif op in ("zip", "dir", "sqldb", "sigfile", "sbt", "lca") and any(
+                    i not in S.sigs for sess in parse_sessions(a[-1]) for i in sess):
+                res = "bad-op"
             elif op in ("zip", "dir", "sqldb", "sigfile"):
                 d = S.fresh()
                 if op == "sigfile":
@@ -330,7 +339,7 @@ def main():
                         refused.append(f"0.{j}:{exc_name(e)}")
                 db.save(S.path)
                 res = "ok refused=" + ",".join(refused)
-            elif op in ("members", "manifest", "locs", "load", "len") and S.kind is None:
+            elif op in ("members", "manifest", "locs", "load", "len", "rebuild") and S.kind is None:
                 res = "ok -"
             elif op == "members":
                 if S.kind == "zip":
@@ -359,6 +368,12 @@ def main():
                     res = "ok " + ";".join(row_fields(r, "o0" if r["internal_location"] == S.path else "?" + str(r["internal_location"])) for r in m.rows)
                 else:
                     res = "ok " + ";".join(row_fields(r, str(r["internal_location"])) for r in m.rows)
+            elif op == "rebuild":
+                if S.kind == "zip":
+                    mf = sourmash_args.get_manifest(generic(S), rebuild=True)
+                    res = "ok~ " + ";".join(row_fields(r, show_member(r["internal_location"])) for r in mf.rows)
+                else:
+                    res = "ok -"
             elif op == "locs":
                 idx = generic(S)
                 if S.kind == "sbt" and idx.manifest is not None:
